@@ -10,12 +10,14 @@ package main
 //                                   (z3 string theory; fails: known finding F3)
 
 import (
+	"encoding/json"
 	"fmt"
 	"go/ast"
 	"go/parser"
 	"go/scanner"
 	"go/token"
 	"os"
+	"os/exec"
 	"path/filepath"
 	"sort"
 	"strconv"
@@ -167,4 +169,109 @@ func (d *Driver) funcNameLemma() {
 		}
 	}
 	d.queries = append(d.queries, q)
+}
+
+// ---------------------------------------------------------------------------------------------
+// BOUNDED stand-in for the graph functions of the left-recursion analysis (C07, C08, C19).
+// StronglyConnectedComponents, FindCyclesInSCC (recursive closures: outside govc's subset) and, through
+// them, findLeader's "on every cycle" property are checked on EVERY directed graph with at most 4
+// vertices against a transitive-closure oracle, by an in-package test injected with `go test -overlay`
+// (/verif/bounded/scc_bounded_test.go.txt; nothing is written to the repository). These obligations are
+// labelled bounded, are never counted as proved, and fail with the concrete graph.
+
+var boundedSCCTags = map[string][]string{
+	"scc:partition": {"C07", "C19"},
+	"scc:components-are-the-strongly-connected-classes": {"C07"},
+	"scc:assumed-contract":                 {"C07", "C13"},
+	"scc:deterministic":                    {"C19"},
+	"cycles:no-error":                      {"C07", "C13"},
+	"cycles:are-closed-walks-in-scc":       {"C07", "C08"},
+	"cycles:cover-every-cycle-vertex-set":  {"C07", "C08"},
+	"leader:on-every-cycle":                {"C07", "C08"},
+	"leader:least-candidate":               {"C19", "C08"},
+	"leader:error-iff-none":                {"C07", "C08"},
+	"leader:deterministic":                 {"C19"},
+}
+
+const boundedSCCBound = "all directed graphs with <= 4 vertices (66066 graphs, 3 vertex orders, repeated calls)"
+
+func (d *Driver) wantsBoundedSCC() bool {
+	if d.OnlyFunc != "" || d.OnlyVariant != "" || !strings.Contains(","+d.Targets+",", ",builder,") {
+		return false
+	}
+	if d.Prop == "" {
+		return true
+	}
+	for _, tags := range boundedSCCTags {
+		for _, t := range tags {
+			if t == d.Prop {
+				return true
+			}
+		}
+	}
+	return false
+}
+
+func (d *Driver) extraBoundedSCC() {
+	src := filepath.Join(d.Verif, "bounded", "scc_bounded_test.go.txt")
+	ov := filepath.Join(d.Work, "scc_overlay.json")
+	b, _ := json.Marshal(map[string]any{"Replace": map[string]string{filepath.Join(d.Repo, "builder", "zz_verif_bounded_scc_test.go"): src}})
+	os.WriteFile(ov, b, 0o644)
+	cmd := exec.Command("go1.26", "test", "-overlay", ov, "-vet=off", "-count=1", "-timeout", "600s", "-v", "-run", "TestVerifBoundedSCC$", "./builder")
+	cmd.Dir = d.Repo
+	cmd.Env = append(os.Environ(), "GOFLAGS=-mod=mod", "GOPROXY=off", "GOSUMDB=off", "GOTOOLCHAIN=local")
+	out, err := cmd.CombinedOutput()
+	got := map[string]string{}
+	done := false
+	for _, l := range strings.Split(string(out), "\n") {
+		if strings.HasPrefix(l, "BOUNDED-DONE") {
+			done = true
+		}
+		f := strings.SplitN(l, " ", 4)
+		if len(f) >= 3 && f[0] == "BOUNDED" {
+			rest := ""
+			if len(f) == 4 {
+				rest = f[3]
+			}
+			got[f[1]] = f[2] + " " + rest
+		}
+	}
+	var names []string
+	for n := range boundedSCCTags {
+		names = append(names, n)
+	}
+	sort.Strings(names)
+	for _, n := range names {
+		q := &Query{Obligation: "bounded:" + n, Func: "builder.StronglyConnectedComponents/FindCyclesInSCC/findLeader", Kind: "bounded", Tags: boundedSCCTags[n], Path: 1,
+			Clause: "BOUNDED (" + boundedSCCBound + "): " + n, Solver: "bounded"}
+		r, ok := got[n]
+		switch {
+		case ok && done && strings.HasPrefix(r, "ok "):
+			q.Result = "unsat"
+			q.Where = strings.TrimSpace(strings.TrimPrefix(r, "ok "))
+		case ok && strings.HasPrefix(r, "FAIL "):
+			q.Result = "sat"
+			q.Model = strings.TrimPrefix(r, "FAIL ")
+		default:
+			q.Result = "unknown"
+			q.Solver = "bounded-harness-error"
+			tail := string(out)
+			if len(tail) > 1500 {
+				tail = tail[len(tail)-1500:]
+			}
+			q.Model = fmt.Sprintf("the bounded harness did not complete (%v): %s", err, tail)
+		}
+		if d.Prop == "" || containsStr(q.Tags, d.Prop) {
+			d.queries = append(d.queries, q)
+		}
+	}
+}
+
+func containsStr(l []string, s string) bool {
+	for _, x := range l {
+		if x == s {
+			return true
+		}
+	}
+	return false
 }
